@@ -420,6 +420,14 @@ class DemoStorage(ConflictResolvingStorage):
 
         with self._lock:
             try:
+                if not a and 'tid' not in k:
+                    # Transaction ids continue those of the base.  The
+                    # changes storage knows only its own transactions, so
+                    # with a stalled or backward clock it would hand out
+                    # an id at or before the base's last one.
+                    base_tid = self.base.lastTransaction()
+                    if self.changes.lastTransaction() <= base_tid:
+                        k['tid'] = ZODB.utils.newTid(base_tid)
                 self.changes.tpc_begin(transaction, *a, **k)
             except BaseException:
                 # The changes storage may already hold its commit lock
